@@ -716,7 +716,13 @@ impl<'a, const BIT: bool> Iterator for BitVectorBitPositionsIter<'a, BIT> {
         self.cur_word = if l >= 63 { 0 } else { self.cur_word >> (l + 1) };
 
         self.cur_position += 1;
+        #[cfg(qwt_verif)]
+        if l >= 63 {
+            crate::verif::probe(10);
+        }
         if pos >= self.n_bits {
+            #[cfg(qwt_verif)]
+            crate::verif::probe(11);
             None
         } else {
             Some(pos)
